@@ -127,7 +127,40 @@ def mirror_event(n, m, e):
 
 
 def mirror_emap(n, m, emap):
-    return [[(n - 1 - e["read"][1]) if k >= 0 else (-n - k - 2), mirror_event(n, m, e)] for k, e in emap]
+    return [[n - 1 - e["read"][1], mirror_event(n, m, e)] for k, e in emap]
+
+
+def mirror_micro(n, m, micro):
+    """Model/C11SymBedCorr.lean `mirrorMicroMap`: read exon k of n + 1 -> n - k, isoform intron j -> m - 1 - j, event order reversed"""
+    return [[n - k, m - 1 - j] for k, j in reversed(micro)]
+
+
+def mirror_event_list(n, m, evs):
+    """the event LIST of the mirrored read as JunctionComparator would emit it: opposite order; an event whose read
+    region starts with the absent sentinel names the read exon (n - k), the undefined region stays"""
+    out = []
+    for e in reversed(evs):
+        if e["read"][0] == G14.ABSENT:
+            out.append({"t": T.swap_lr(e["t"]), "iso": mirror_idx(m, e["iso"]), "read": [G14.ABSENT, n - e["read"][1]]})
+        elif e["read"][0] == G14.UNDEF:
+            out.append({"t": T.swap_lr(e["t"]), "iso": mirror_idx(m, e["iso"]), "read": list(e["read"])})
+        else:
+            out.append(mirror_event(n, m, e))
+    return out
+
+
+def split_event_list(case):
+    """what correct_misalignments makes of the event list: (event map entries, micro bindings, keys distinct?)"""
+    emap, micro = [], []
+    for e in case["events"]:
+        if e["read"] == [G14.UNDEF, G14.UNDEF]:
+            continue
+        if e["read"][0] == G14.ABSENT:
+            if e["t"] == "fake_micro_intron_retention" and case["flags"]["microintron_retention"]:
+                micro.append([e["read"][1], e["iso"][0]])
+        else:
+            emap.append([e["read"][0], e])
+    return emap, micro
 
 
 def mirror_err(n, err):
@@ -232,7 +265,7 @@ def _pev(kw):
     if key not in _CACHE:
         if len(_CACHE) > 20000:
             _CACHE.clear()
-        _CACHE[key] = _c14().run_process_events(kw["case"], [(k, e) for k, e in kw["emap"]])
+        _CACHE[key] = _c14().run_process_events(kw["case"], [(k, e) for k, e in kw["emap"]], kw.get("micro", []))
     return _CACHE[key]
 
 
@@ -349,8 +382,30 @@ def dom_mirror_lines(par, kw):
     return False
 
 
+# the two audit inputs (audit 2-C, C11 G5 / G6; Props/C11Corrector.lean `mirror_processEventsOld_last_exon_witness`,
+# `…_several_witness`): a micro intron retained in the LAST read exon, two micro introns retained in one exon
+_MICRO_FLAGS = {"fuzzy_junctions": False, "intron_shifts": False, "skipped_exons": False, "terminal_exons": False,
+                "fake_terminal_exons": False, "microintron_retention": True}
+MICRO_REGRESSIONS = [
+    ({"L": 9000}, {"case": {"family": [[[6000, 6300], [7000, 7300], [7800, 8091], [8100, 8300]]], "iso_index": 0,
+                            "exons": [[6000, 6300], [7000, 7300], [7800, 8300]], "delta": 6, "flags": _MICRO_FLAGS,
+                            "err": [[[0, 0], [0, 0]], [[0, 0], [0, 0]]], "noninformative": False, "no_match": False,
+                            "events": []},
+                   "emap": [], "micro": [[2, 2]], "keep": True}),
+    ({"L": 5000}, {"case": {"family": [[[4086, 4108], [4148, 4236], [4257, 4318], [4401, 4500]]], "iso_index": 0,
+                            "exons": [[4086, 4318], [4401, 4500]], "delta": 6, "flags": _MICRO_FLAGS,
+                            "err": [[[0, 0], [0, 0]]], "noninformative": False, "no_match": False, "events": []},
+                   "emap": [], "micro": [[0, 0], [0, 1]], "keep": True}),
+]
+
 TERMINAL_ISO = ("terminal_exon_misalignment_left", "terminal_exon_misalignment_right")
 USES_ISO = TERMINAL_ISO + ("intron_shift", "exon_misalignment")
+
+
+def micro_wf(n, m, micro):
+    """Lemmas/C11CorrectorMirror.lean `MicroWF n m mm`: ANY read exon 0..n (first and last included), any number of
+    bindings per exon, in-range isoform intron index"""
+    return all(0 <= k <= n and 0 <= j < m for k, j in micro)
 
 
 def emap_wf(n, m, emap):
@@ -368,8 +423,7 @@ def emap_wf(n, m, emap):
             if e["t"] in TERMINAL_ISO and i[0] != i[1]:
                 return False
         else:
-            if not (-n <= k <= -2 and 0 <= i[0] < m and i[0] == i[1]):
-                return False
+            return False
     for k, e in emap:
         for k2, _ in emap:
             if 0 <= k < k2 and not e["read"][1] < k2:
@@ -387,7 +441,23 @@ def dom_mirror_events(par, kw):
     if n != len(case["exons"]) - 1:
         return False
     m = len(G14.introns_of(_tl(case["family"][case["iso_index"]])))
-    return emap_wf(n, m, kw["emap"])
+    return emap_wf(n, m, kw["emap"]) and micro_wf(n, m, kw.get("micro", []))
+
+
+def dom_mirror_car(par, case):
+    """event lists whose event map / micro bindings are well formed (`EmapWF`, `MicroWF`), fuzzy correction off"""
+    if case["flags"]["fuzzy_junctions"] or len(case["exons"]) < 2 or not is_sd([tuple(e) for e in case["exons"]]):
+        return False
+    n = len(case["exons"]) - 1
+    m = len(G14.introns_of(_tl(case["family"][case["iso_index"]])))
+    emap, micro = split_event_list(case)
+    return emap_wf(n, m, emap) and micro_wf(n, m, micro)
+
+
+def _tin_mirror_car(par, case):
+    n = len(case["exons"]) - 1
+    m = len(G14.introns_of(_tl(case["family"][case["iso_index"]])))
+    return dict(mirror_case(par["L"], case), events=mirror_event_list(n, m, case["events"]))
 
 
 def _mirror_res(par, kw, v):
@@ -398,7 +468,8 @@ def _tin_mirror_events(par, kw):
     case = kw["case"]
     n = len(case["exons"]) - 1
     m = len(G14.introns_of(_tl(case["family"][case["iso_index"]])))
-    return {"case": mirror_case(par["L"], case), "emap": mirror_emap(n, m, kw["emap"])}
+    return {"case": mirror_case(par["L"], case), "emap": mirror_emap(n, m, kw["emap"]),
+            "micro": mirror_micro(n, m, kw.get("micro", []))}
 
 
 # ---------------------------------------------------------------------------------------------------------------------
@@ -435,15 +506,23 @@ RELS = [
         nontrivial=lambda kw, v: not vlib.is_err(v) and v != vlib.canon(kw["exons"])),
     Rel("S.process_events", "shift_equivariant_processEvents",
         model=lambda kw: vlib.req("C14.process_events", **_pev(kw)[0]), impl=lambda kw: _pev(kw)[1],
-        tin=lambda par, kw: {"case": shift_case(par["k"], kw["case"]), "emap": kw["emap"]},
+        tin=lambda par, kw: {"case": shift_case(par["k"], kw["case"]), "emap": kw["emap"], "micro": kw.get("micro", [])},
         tout=_shift_res, eq=eq_kind,
         nontrivial=lambda kw, v: not vlib.is_err(v) and len(v["introns"]) > 0),
     # searched, not proved: the whole loop under reflection (`ProcessEventsMirror`, kept as `def … : Prop`); its
     # per-event step is the theorem mirror_dual_eventStep
-    Rel("M.process_events", "ProcessEventsMirror (OPEN, searched) / mirror_dual_eventStep / mirror_dual_buildExons",
+    Rel("M.process_events", "mirror_dual_processEvents_micro (event map without index-keyed events) / ProcessEventsMirror "
+        "(OPEN, searched) / mirror_dual_eventStep / mirror_dual_microStep / mirror_dual_buildExons",
         model=lambda kw: vlib.req("C14.process_events", **_pev(kw)[0]), impl=lambda kw: _pev(kw)[1],
         tin=_tin_mirror_events, tout=_mirror_res, domain=dom_mirror_events, eq=eq_kind,
-        nontrivial=lambda kw, v: not vlib.is_err(v) and len(kw["emap"]) > 0),
+        nontrivial=lambda kw, v: not vlib.is_err(v) and len(kw["emap"]) + len(kw.get("micro", [])) > 0),
+    # the same through correct_misalignments (event LISTS, several micro-intron events per read exon, first / last exon):
+    # searched; the loop on the built maps is the relation above, exon chain and gate are mirror_dual_buildExons/validChain
+    Rel("M.correct_assigned_read", "mirror_dual_processEvents_micro + mirror_dual_buildExons + mirror_dual_validChain "
+        "(event lists through correct_misalignments: searched)",
+        model=lambda kw: vlib.req("C14.correct_assigned_read", **_car(kw)[0]), impl=lambda kw: _car(kw)[1],
+        tin=_tin_mirror_car, tout=lambda par, kw, v: T.mirror_l(par["L"], _tl(v)), domain=dom_mirror_car, eq=eq_kind,
+        nontrivial=lambda kw, v: not vlib.is_err(v) and v != vlib.canon(kw["exons"])),
     # ---- GTF
     Rel("S.validate_exons", "shift_equivariant_validateExons (+ shift_validateExons_witness)",
         model=lambda kw: vlib.req("C03.validate_exons", **kw),
@@ -535,6 +614,8 @@ def transformation_checks(ctx):
                 for _ in range(rng.randint(0, 4))]
         emap = vlib.canon(emap)
         todo.append(("T.mirror_emap", {"n": n, "m": m, "emap": emap}, mirror_emap(n, m, emap)))
+        micro = [[rng.randint(-1, n + 1), rng.randint(-1, m)] for _ in range(rng.randint(0, 5))]
+        todo.append(("T.mirror_micro", {"n": n, "m": m, "micro": micro}, mirror_micro(n, m, micro)))
         err = G14.rand_err_table(rng, rng.randint(0, n + 1))
         todo.append(("T.mirror_err", {"n": n, "err": err}, mirror_err(n, err)))
     outs = ctx.driver.run([vlib.req("C11." + op, **kw) for op, kw, _ in todo])
@@ -634,17 +715,10 @@ def cases(ctx):
         if len(case["exons"]) < 1:
             continue
         n_read = len(G14.introns_of(_tl(case["exons"])))
-        emap = []
-        for e in case["events"]:
-            if e["read"][0] in (G14.ABSENT, G14.UNDEF):
-                key = -e["read"][1] - 1
-            elif rng.random() < 0.85:
-                key = e["read"][0]
-            else:
-                key = rng.randint(-n_read - 1, n_read)
-            emap.append([key, e])
+        emap, micro = _c14().split_stream(rng, case["events"], n_read)
+        emap = [[k_, e] for k_, e in emap]
         k = rng.choice(KS) if rng.random() < 0.83 else -case["exons"][0][0] - rng.choice([0, 1, 5])
-        out.append(("S.process_events", {"k": k}, {"case": case, "emap": emap}))
+        out.append(("S.process_events", {"k": k}, {"case": case, "emap": emap, "micro": micro}))
     # the non-terminating event map of C14's `nontermination_witness` (fuel ↦ fuel)
     out.append(("S.process_events", {"k": 255},
                 {"case": {"family": [[[41, 60], [71, 120]]], "iso_index": 0, "exons": [[10, 12], [41, 60], [71, 99]], "delta": 6,
@@ -652,8 +726,15 @@ def cases(ctx):
                           "no_match": False, "events": []},
                  "emap": [[0, {"t": "intron_retention", "iso": [0, 0], "read": [0, -1]}]]}))
 
-    # reflection of the whole loop (searched): well-formed event maps = disjoint in-range ranges keyed by their start,
-    # all event types, micro-intron insertions strictly inside
+    # reflection of the whole loop: well-formed event maps = disjoint in-range ranges keyed by their start, all event
+    # types; micro-intron retentions in ANY read exon (first, inner, LAST) and several per exon (audit 2-C G5, G6: the
+    # former `for p_ in range(1, n)` / one event per exon hid both).  A quarter of the cases have no index-keyed event
+    # (the proved instance `mirror_dual_processEvents_micro`).
+    for w in MICRO_REGRESSIONS:
+        out.append(("M.process_events",) + w)
+        out.append(("M.correct_assigned_read", w[0],
+                    dict(w[1]["case"], keep=True, events=[{"t": "fake_micro_intron_retention", "iso": [j_, j_], "read": [G14.ABSENT, p_]}
+                                                          for p_, j_ in w[1]["micro"]])))
     all_types = G14.TERMINAL + G14.MISALIGN + known_types + G14.OTHER + ["fake_micro_intron_retention"]
     for _ in range(250 if quick else 4000):
         case = vlib.canon(G14.corrector_case(rng, presets, known_types, small=rng.random() < 0.5, malformed=False))
@@ -663,8 +744,9 @@ def cases(ctx):
         n = len(case["exons"]) - 1
         m = len(G14.introns_of(_tl(case["family"][case["iso_index"]])))
         emap, i, used = [], 0, set()
+        p_event = rng.choice([0.5, 0.5, 0.5, 0.0])
         while i < n:
-            if rng.random() < 0.5:
+            if rng.random() < p_event:
                 b = i if rng.random() < 0.7 else rng.randint(i, n - 1)
                 t = rng.choice(all_types[:-1])
                 side = "left" if t.endswith("left") else "right"
@@ -683,13 +765,22 @@ def cases(ctx):
                 i = b + 1
             else:
                 i += 1
-        for p_ in range(1, n):
-            if m > 0 and rng.random() < 0.15:
+        micro = []
+        p_micro = 0.15 if p_event else 0.4
+        for p_ in range(0, n + 1):
+            if m > 0 and rng.random() < p_micro:
                 a_ = rng.randint(0, m - 1)
-                emap.append([-p_ - 1, {"t": "fake_micro_intron_retention", "iso": [a_, a_], "read": [G14.ABSENT, p_]}])
+                for j_ in range(a_, min(m, a_ + rng.choice([1, 1, 2, 3]))):
+                    micro.append([p_, j_])
         rng.shuffle(emap)
         hi = max(case["exons"][-1][1], max(t[-1][1] for t in case["family"]))
-        out.append(("M.process_events", {"L": hi + rng.choice([0, 1, 40, 10 ** 6])}, {"case": case, "emap": emap}))
+        Lm = hi + rng.choice([0, 1, 40, 10 ** 6])
+        out.append(("M.process_events", {"L": Lm}, {"case": case, "emap": emap, "micro": micro}))
+        evl = [e for _, e in emap] + [{"t": "fake_micro_intron_retention", "iso": [j_, j_], "read": [G14.ABSENT, p_]}
+                                      for p_, j_ in micro]
+        if rng.random() < 0.3:
+            rng.shuffle(evl)
+        out.append(("M.correct_assigned_read", {"L": Lm}, dict(case, events=evl, noninformative=False, no_match=False)))
 
     # ---- GTF
     out.append(("S.validate_exons",) + VALIDATE_WITNESS)
